@@ -5,6 +5,17 @@ Mode R + V (DESIGN.md section 5, C14):
  * spec/RacReader.tla     the in-memory reader that a rac.Reader must equal; TLC enumerates every
                           call sequence of length 4 (quick) / 5 (thorough) over per-file alphabets
                           and exports it with the expected reply of every call;
+ * spec/RacFile.tla       the FILE dimension: the geometry of a valid RAC file in DSpace (chunk
+                          boundaries, bytes stored per chunk, Codec per chunk, the Root Node's split)
+                          as the constant RacReader reads.  Files come from rac.Writer + raczlib, from
+                          rac.ChunkWriter (> 65025 chunks) and from a builder of structurally diverse
+                          valid files (harness/cmd/racrreplay/build.go: Zeroes / Zlib / LZ4 / Zstandard
+                          chunks mixed in one file, index trees of arity 1-3 and depth 3-4, Root Node at
+                          the start or the end, padding, CBiasing sub-trees, shared dictionaries,
+                          empty-DRange elements, Codec Elements, Long Codecs, mixed Leaf/Branch
+                          siblings).  Every built file is walked by the independent walker of C13
+                          (cmd/racwreplay) and judged by Trace_RacFormat.tla before it is used, and its
+                          Leaf Nodes must equal the description;
  * spec/RacConc.tla       conc_reader.go, one action per channel operation; TLC checks deadlock
                           freedom inside calls, ByteAtPos, ReplyOK, buffer ownership, AfterClose;
                           the unchanged code's defects come out as counterexamples, the FIXEDn
@@ -22,9 +33,9 @@ from vlib import ToolingError
 
 META = {
     "level": "model_checking",
-    "technique": "TLA+ specifications RacReader (in-memory reader oracle), RacConc (conc_reader.go, one action per channel operation) and Trace_RacConc, checked by TLC; bound to lib/rac by replay of every TLC-exported call sequence on the real Reader (Concurrency 0, and 1/2/4 under -race with watchdog, leak check, oracle) and by validation of per-goroutine event logs (hook H2) against RacConc",
-    "text": "Every call sequence of length 4 (quick) / 5 (thorough) over per-file alphabets (offsets at chunk boundaries +-1, 0, dsize +-1, negatives; buffer lengths 0, 1, chunk-1, chunk, chunk+1, all; all whences; SeekRange incl. low > high) on files of 1-5 chunks, implicit zero tails, an all-zero chunk, multi-level indexes and chunks larger than the worker buffer is exported by TLC with the in-memory reader's reply and replayed on the real rac.Reader; RacConc is model-checked exhaustively for N=1 (and N=2 at smaller bounds) for deadlock inside a call, byte-at-pos, reply, buffer ownership and termination after Close; the real concurrent reader is replayed under -race on a seeded sample plus every model counterexample and, with hook H2, its channel-level event logs are accepted by the model.",
-    "note": "Trusted: TLC, the JSON transport, harness/cmd/racrreplay (drives and compares with the transported expectation only), Go's race detector and runtime.NumGoroutine. Real schedules are sampled (seeded perturbation), only the model explores all interleavings. Valid files written by rac.Writer+raczlib only (hostile files are C15); CloseWithoutWaiting is not driven.",
+    "technique": "TLA+ specifications RacReader (in-memory reader oracle over a file geometry, RacFile), RacConc (conc_reader.go, one action per channel operation) and Trace_RacConc, checked by TLC; bound to lib/rac by replay of every TLC-exported call sequence on the real Reader (Concurrency 0, and 1/2/4 under -race with watchdog, leak check, oracle) and by validation of per-goroutine event logs (hook H2) against RacConc",
+    "text": "Every call sequence of length 4 (quick) / 5 (thorough) over per-file alphabets (offsets at chunk boundaries +-1, 0, dsize +-1, negatives; buffer lengths 0, 1, chunk-1, chunk, chunk+1, all; all whences; SeekRange incl. low > high) on files of 1-5 chunks, implicit zero tails, an all-zero chunk, multi-level indexes and chunks larger than the worker buffer (rac.Writer), a 66000-chunk three-level index (rac.ChunkWriter) and structurally diverse valid files laid out from abstract descriptions (Zeroes-codec chunks between / after / next to Zlib chunks, LZ4 and Zstandard chunks, 3-5 level indexes of arity 1-3 with the Root Node at the start and at the end, >= 3 top-level branches, mixed Leaf/Branch siblings, CBiasing sub-trees, padding, shared dictionaries, empty-DRange and Codec elements, a Long Codec; each validated by the independent walker + Trace_RacFormat.tla; alphabets include positions strictly inside Zeroes chunks and in the 2nd/3rd top-level sub-tree) is exported by TLC with the in-memory reader's reply and replayed on the real rac.Reader; RacConc is model-checked exhaustively for N=1 (and N=2 at smaller bounds) for deadlock inside a call, byte-at-pos, reply, buffer ownership and termination after Close; the real concurrent reader is replayed under -race on a seeded sample plus every model counterexample and, with hook H2, its channel-level event logs are accepted by the model.",
+    "note": "Trusted: TLC, the JSON transport, harness/cmd/racrreplay (drives and compares with the transported expectation only), Go's race detector and runtime.NumGoroutine. Real schedules are sampled (seeded perturbation), only the model explores all interleavings. Valid files only (hostile files are C15): from rac.Writer+raczlib, rac.ChunkWriter and the harness's file builder (a fixed list of file classes; the file geometry is the constant of spec/RacFile.tla); CloseWithoutWaiting is not driven.",
 }
 
 KEY_STALE = "stale-state-after-stop"
@@ -122,6 +133,257 @@ def explicit_rule(k, size, z):
     return size
 
 
+# ----------------------------------------------------------------------------- the file dimension
+def N(*e, **kw):
+    """A Branch Node of a built file's index (see harness/cmd/racrreplay/build.go)."""
+    d = {"e": list(e)}
+    d.update(kw)
+    return d
+
+
+def built_descs(ctx):
+    """Structurally diverse valid files.  runs = [n, size, explicit, codec] (codec 0 Zeroes, 1 Zlib,
+    2 LZ4, 3 Zstandard); tree = the index, Leaf Nodes by chunk number."""
+    s = ctx.seed
+    fs = []
+
+    def F(fid, runs, tree, **kw):
+        d = {"id": fid, "kind": "built", "seed": s * 100 + len(fs) + 11, "runs": runs, "tree": tree}
+        d.update(kw)
+        fs.append(d)
+    # a Zeroes chunk between two Zlib chunks; Leaf and Branch siblings; Root Node at the end
+    F("z1", [[1, 8, 8, 1], [1, 8, 0, 0], [1, 8, 5, 1]], N(0, N(1), 2, hdr=True))
+    # two adjacent Zeroes chunks, a Zeroes chunk last (Long Codec, Codec Element), an empty Leaf element,
+    # four top-level branches; Root Node at the start
+    F("z2", [[1, 4, 4, 1], [1, 6, 0, 0], [1, 3, 0, 0], [1, 5, 2, 1], [1, 7, 0, 0]],
+      N(N(0), N(1, 2), "eleaf", N(3), N("ecodec", 4, long=True), pre=True))
+    # three levels, arity 1-3, three top-level branches, padding to 16; Root Node at the end
+    F("d3", [[1, 3, 3, 1], [1, 4, 2, 1], [1, 5, 5, 1], [1, 3, 0, 1], [2, 4, 4, 1], [1, 6, 3, 1], [1, 3, 3, 1], [1, 5, 5, 1], [1, 4, 4, 1],
+             [1, 3, 1, 1], [1, 6, 6, 1]],
+      N(N(N(0, 1), N(2, 3)), N(N(4, 5), N(6, 7, 8)), N(N(9), N(10, 11)), hdr=True), page=16)
+    # three levels, Leaf and Branch siblings at two levels, a shared dictionary; Root Node at the start
+    F("d3s", [[1, 4, 4, 1], [1, 3, 3, 1], [1, 5, 2, 1], [1, 4, 4, 1], [1, 3, 3, 1], [1, 6, 6, 1], [1, 4, 0, 1], [1, 5, 5, 1], [1, 3, 2, 1], [1, 4, 4, 1]],
+      N(0, N(N(1, 2), 3, N(4, 5)), N(6, N("res", 7, 8)), 9, pre=True))
+    # four levels with chains of arity-1 nodes (legal only with the Root Node at the end), three top-level branches
+    F("d4", [[1, 3, 3, 1], [1, 4, 4, 1], [1, 5, 2, 1], [1, 3, 3, 1], [1, 4, 4, 1], [1, 6, 6, 1], [1, 3, 0, 1], [1, 5, 5, 1], [1, 4, 3, 1]],
+      N(N(N(N(0, 1)), N(N(2), N(3, 4))), N(N(N(5, 6), 7)), N(N(N(8))), hdr=True))
+    # four levels, binary, empty Branch / Leaf elements, a Codec Element in a Short Codec node, two Zeroes
+    # chunks at the fourth level of the second top-level branch, padding to 64; Root Node at the start
+    F("d4s", [[10, 3, 3, 1], [2, 4, 0, 0], [2, 5, 4, 1], [2, 3, 3, 1]],
+      N(N(N(N(0, 1), N(2, "ebranch", 3)), N(N(4, 5), "eleaf", N(6, 7))),
+        N(N(N(8, 9), N(10, 11)), "ecodec", N(N(12, 13), N(14, 15))), pre=True), page=64)
+    # concatenation (rac-spec.md, third example): three RAC files, each a CBiasing child of a new Root Node at
+    # the end: non-zero CBias and DBias; the first one starts the CFile with its own (now obsolete) root
+    F("cb", [[1, 11, 11, 1], [1, 11, 11, 1], [1, 13, 13, 1], [1, 6, 6, 1], [1, 5, 2, 1], [1, 4, 4, 1], [1, 9, 0, 0]],
+      N(N("res", 0, 1, 2, bias=True, pre=True), N(3, N(4, 5), bias=True, pre=False, hdr=True), N(6, bias=True, pre=True)))
+    # a Zeroes chunk of several worker buffers between two Zlib chunks larger than a buffer
+    F("zb", [[1, 70000, 70000, 1], [1, 200000, 0, 0], [1, 70000, 40000, 1]], N(N(0), N(1), N(2), hdr=True))
+    # all four Short Codecs in one file
+    F("lz", [[1, 9, 9, 1], [1, 8, 8, 2], [1, 6, 3, 2], [1, 7, 7, 3], [1, 8, 4, 3], [1, 5, 0, 0]], N(N(0), N(1, 2), N(3, 4), N(5), hdr=True))
+    # the repository's own index builder beyond two levels: 66000 chunks = 259 + 2 + 1 Branch Nodes
+    fs.append({"id": "big", "kind": "chunkwriter", "seed": s * 100 + 1, "runs": [[40000, 2, 2, 1], [26000, 3, 1, 1]], "index_start": False})
+    if ctx.tier == "thorough":
+        # five levels of arity 1-2; Root Node at the end
+        F("d5", [[6, 3, 3, 1], [1, 4, 0, 0], [5, 3, 2, 1]],
+          N(N(N(N(N(0, 1), N(2)), N(N(3))), N(N(N(4, 5)))), N(N(N(N(6), N(7, 8)))), N(N(N(N(9)), N(N(10, 11)))), hdr=True), page=32)
+        fs.append({"id": "bigs", "kind": "chunkwriter", "seed": s * 100 + 2, "runs": [[65026, 3, 3, 1], [300, 2, 1, 1]], "index_start": True, "page": 4096})
+    return fs
+
+
+def desc_chunks(d):
+    """The chunk list <<lo, hi, explicit, codec>> a file description stands for."""
+    out = []
+    if d.get("kind"):
+        p = 0
+        for n, size, expl, codec in d["runs"]:
+            for _ in range(n):
+                out.append((p, p + size, expl, codec))
+                p += size
+        return out
+    for k, lo in enumerate(range(0, d["size"], d["dchunk"])):
+        hi = min(lo + d["dchunk"], d["size"])
+        out.append((lo, hi, explicit_rule(k, hi - lo, d["zmode"]), 1))
+    return out
+
+
+def geo_runs(chunks):
+    """RacFile.tla runs <<lo, n, size, expls, codec>>: consecutive chunks of equal size and Codec are one run;
+    expls is the shortest pattern of stored-byte counts that repeats along the run."""
+    runs = []
+    for lo, hi, e, c in chunks:
+        if runs and runs[-1][2] == hi - lo and runs[-1][4] == c:
+            runs[-1][1] += 1
+            runs[-1][3].append(e)
+        else:
+            runs.append([lo, 1, hi - lo, [e], c])
+    for r in runs:
+        es = r[3]
+        for p in range(1, len(es) + 1):
+            if all(es[i] == es[i % p] for i in range(len(es))):
+                r[3] = es[:p]
+                break
+            if p >= 64:         # not periodic: a run per chunk would be simpler, but keep it exact
+                break
+    return runs
+
+
+def root_top(b):
+    """The Root Node's DOff values, read from the file's bytes as rac-spec.md says to look for the root
+    (start first, then end).  Used for labels (coverage of top-level sub-trees) only."""
+    def node_at(off, ar):
+        size = 16 * ar + 16
+        if ar == 0 or off < 0 or off + size > len(b):
+            return None
+        nb = b[off:off + size]
+        if nb[:3] != b"\x72\xC3\x63" or nb[-1] != ar or int.from_bytes(nb[size - 8:size - 2], "little") != len(b):
+            return None
+        return [0] + [int.from_bytes(nb[8 * i:8 * i + 6], "little") for i in range(1, ar + 1)]
+    dp = node_at(0, b[3]) or node_at(len(b) - (16 * b[-1] + 16), b[-1])
+    if dp is None:
+        raise ToolingError("no Root Node found at either end of a file")
+    return sorted(set(dp))
+
+
+def validate_files(ctx, binw, descs, finfo, pool):
+    """Every built file is walked by the independent walker (cmd/racwreplay, written from rac-spec.md) and
+    the events are judged by Trace_RacFormat.tla: a rejected file is a bug of the builder.  The Leaf Nodes
+    found must equal the description.  Returns {fid: {"depth", "nodes", "top"}}."""
+    built = [d for d in descs if d.get("kind") == "built"]
+    wdir = ctx.subdir("walk")
+
+    def walk(d):
+        outp = os.path.join(wdir, d["id"] + ".json")
+        r = ctx.run([binw, "-mode", "walk", "-in", finfo[d["id"]]["path"], "-out", outp], timeout=600)
+        if r.returncode != 0:
+            raise ToolingError("racwreplay -mode walk failed on %s: %s" % (d["id"], r.stderr[-2000:]))
+        return json.load(open(outp))["traces"][0]
+    traces = list(pool.map(walk, built))
+    res = ctx.tlc("Trace_RacFormat", cfg="trace.cfg", data={
+        "trace.cfg": "SPECIFICATION Spec\nINVARIANTS Judge Summary\nCHECK_DEADLOCK FALSE\n",
+        "traces.json": json.dumps(traces)}, timeout=1500, workers=2, label="Trace_RacFormat (built files)")
+    if res["error"] or not res["finished"] or res["violated"] or res["distinct"] != len(traces):
+        raise ToolingError("Trace_RacFormat did not judge the built files:\n" + res["out"][-3000:])
+    roots = {}
+    for o in vlib.parse_tlc_prints(res["out"]):
+        if isinstance(o, dict) and o.get("verdict") == "REJECT":
+            d = built[o["idx"] - 1]
+            raise ToolingError("the file builder produced an INVALID file %s (%s): Trace_RacFormat rejects it: %s" % (
+                d["id"], json.dumps(d["tree"]), o["reasons"]))
+        if isinstance(o, dict) and o.get("verdict") == "INFO":
+            roots[o["idx"]] = o["root"]
+    out = {}
+    for i, (d, t) in enumerate(zip(built, traces)):
+        rv = roots.get(i + 1, 0)
+        if not rv:
+            raise ToolingError("no valid Root Node in built file %s" % d["id"])
+        codec_of = {v["v"]: (0 if (v["codecbyte"] & 0x80 and v["longcodec"] == "00000000000000") else
+                             (v["codecbyte"] & 0x3F) if not v["codecbyte"] & 0x80 else -1) for v in t["visits"]}
+        got = [(l["dlo"], l["dhi"], l["explicit"] if l["decodable"] else None, codec_of[l["parent"]]) for l in t["leaves"] if l["root"] == rv]
+        want = desc_chunks(d)
+        same = len(got) == len(want) and all(g[0] == w[0] and g[1] == w[1] and g[3] == w[3] and g[2] in (None, w[2]) for g, w in zip(got, want))
+        if not same:
+            raise ToolingError("built file %s: the independent walker finds Leaf Nodes %s, the description says %s" % (d["id"], got[:20], want[:20]))
+        depth = {}
+        for v in t["visits"]:
+            if v["root"] == rv:
+                depth[v["v"]] = 1 if v["parent"] == 0 else depth[v["parent"]] + 1
+        rn = t["visits"][rv - 1]
+        out[d["id"]] = {"depth": max(depth.values()), "nodes": len(depth), "top": sorted(set(rn["dptr"])),
+                        "root_at": "start" if rn["coff"] == 0 else "end", "arity_root": rn["arity"],
+                        "cbias_nonzero": sum(1 for v in t["visits"] if v["root"] == rv and v["cbias"] != 0),
+                        "dbias_nonzero": sum(1 for v in t["visits"] if v["root"] == rv and v["dbias"] != 0),
+                        "max_arity": max(v["arity"] for v in t["visits"] if v["root"] == rv)}
+    return out
+
+
+def geo_alphabet(chunks, top):
+    """The rule of the design on an arbitrary geometry: offsets/limits at chunk boundaries +-1 and strictly
+    inside (first chunks, last chunks, every Zeroes chunk and its neighbours, the first chunks of the 2nd-4th
+    top-level element), 0, dsize +-1, negatives; lengths 0, 1, chunk-1, chunk, chunk+1 for the chunk sizes
+    there, all; every whence (and invalid ones); SeekRange over the offsets incl. low > high."""
+    d = chunks[-1][1]
+    nch = len(chunks)
+    at = {c[0]: i for i, c in enumerate(chunks)}
+    zero = [i for i, c in enumerate(chunks) if c[3] == 0]
+    sel = {0, 1, 2, nch - 2, nch - 1}
+    if nch > 256:
+        sel |= {254, 255, 256}
+    for i in zero[:6] + zero[-2:]:
+        sel |= {i - 1, i, i + 1}
+    deep = []
+    for j in range(1, min(len(top) - 1, 4)):
+        i = at[top[j]]
+        sel |= {i - 1, i, i + 1}
+        deep += [i, i + 1]
+    sel = sorted(i for i in sel if 0 <= i < nch)
+    many = nch > 5000          # a Read of everything is 10^5 chunk set-ups: the lengths stay below ~600 chunks
+    offs = set()
+    for i in sel:
+        lo, hi = chunks[i][0], chunks[i][1]
+        offs |= {lo - 1, lo, lo + 1, (lo + hi) // 2, hi - 1, hi, hi + 1}
+    size0 = chunks[0][1] - chunks[0][0]
+    offs |= {0, d - 1, d, d + 1, -1, -2, -d, d + size0}
+    offs = sorted(offs)
+    sizes = sorted({chunks[i][1] - chunks[i][0] for i in sel})
+    sizes = sizes[:3] + sizes[-2:]
+    lens = {0, 1, min(5 * size0, d + 1)}
+    for sz in sizes:
+        lens |= {max(sz - 1, 0), sz, sz + 1}
+    lens |= {511, 1300} if many else {d + 1}
+    lens = sorted(lens)
+    # positions strictly inside a Zeroes chunk that another chunk follows / inside a chunk below the 2nd.. top-level element
+    def inside(i):
+        lo, hi = chunks[i][0], chunks[i][1]
+        return sorted({lo + 1, (lo + hi) // 2, hi - 1} - {lo, hi}) if hi - lo >= 2 else []
+    zin = [(p, chunks[i][1]) for i in zero if i + 1 < nch for p in inside(i)]
+    din = [(p, chunks[i][1]) for i in deep if 0 <= i < nch for p in inside(i)]
+    reads = [[0, n, 0] for n in lens]
+    seeks0 = [[1, o, 0] for o in offs]
+    sizeL = chunks[-1][1] - chunks[-1][0]
+    seeks12 = [[1, x, 1] for x in (-size0 - 1, -1, 0, 1, size0)] + [[1, x, 2] for x in (-d - 1, -d, -sizeL, -sizeL + 1, -1, 0, 1)]
+    bad = [[1, 0, 3], [1, 1, -1]]
+    ranges = [[2, lo, hi] for lo in offs for hi in offs]
+    return {"reads": reads, "seeks0": seeks0, "seeks12": seeks12, "bad": bad, "ranges": ranges, "close": [[3, 0, 0]],
+            "chunk": size0, "maxchunk": max(sizes), "minchunk": min(sizes), "d": d, "special": zin or din, "special_kind": "zeroes" if zin else "deep"}
+
+
+def draw_geo_alphabet(rng, fa, size):
+    """A sub-alphabet of `size` calls for a built file: one call of each essential kind - among them a Seek
+    to a position strictly inside the file's special chunk (a Zeroes chunk that another chunk follows, else
+    a chunk in the 2nd.. top-level sub-tree), a Read long enough to cross the end of any chunk from there,
+    and a SeekRange that starts inside it and ends beyond it - then draws from the whole rule."""
+    d = fa["d"]
+    small = [c for c in fa["reads"] if 0 < c[1] <= max(1, fa["minchunk"] - 1)]
+    big = [c for c in fa["reads"] if c[1] >= fa["maxchunk"] + 1] or [fa["reads"][-1]]
+    good = [c for c in fa["ranges"] if 0 <= c[1] <= c[2]]
+    sp = fa["special"]
+    p, hi = rng.choice(sp) if sp else (rng.choice([c[1] for c in fa["seeks0"] if 0 < c[1] < d]), d)
+    across = [c for c in fa["ranges"] if c[1] in [q for q, _ in sp] and c[2] > dict(sp)[c[1]] and c[2] < d] \
+        or [c for c in fa["ranges"] if 0 <= c[1] < c[2] < d] or good
+    essential = [
+        rng.choice(big),
+        [1, p, 0],                                                    # io.SeekStart, strictly inside the special chunk
+        rng.choice(small or fa["reads"]),
+        rng.choice(across),                                           # a limit below the size, starting inside
+        rng.choice([c for c in fa["seeks12"] if c[2] == 2]),          # io.SeekEnd
+        fa["close"][0],
+        rng.choice([c for c in fa["seeks12"] if c[2] == 1]),          # io.SeekCurrent
+        rng.choice(good),
+    ]
+    pick = []
+    for c in essential[:max(1, size - 1)]:
+        if c not in pick:
+            pick.append(c)
+    everything = fa["reads"] + fa["seeks0"] * 2 + fa["seeks12"] * 3 + fa["bad"] * 2 + good * 2 + fa["ranges"]
+    guard = 0
+    while len(pick) < size and guard < 1000:
+        c = rng.choice(everything)
+        guard += 1
+        if c not in pick:
+            pick.append(c)
+    return pick
+
+
 def full_alphabet(bounds):
     """The rule of the design: offsets/limits from chunk boundaries +-1, 0, dsize +-1, negatives;
     buffer lengths {0, 1, chunk-1, chunk, chunk+1, all}; every whence (and invalid ones)."""
@@ -216,12 +478,54 @@ def units_to_calls(hist, unit):
     return calls
 
 
+def file_coverage(scripts, fgeo):
+    """Per file, from the labels RacReader.tla attaches to every exported call (Codec of the chunk that holds
+    pos, strictly inside it or not, top-level element): how often the expected-successful calls start where the
+    file classes need them to."""
+    import bisect
+    keys = ("reads_delivering_bytes", "reads_from_a_zeroes_chunk", "reads_from_strictly_inside_a_zeroes_chunk_across_its_end",
+            "reads_from_strictly_inside_a_zeroes_chunk_across_its_end_fresh_cursor", "reads_across_a_chunk_boundary_from_strictly_inside",
+            "reads_delivering_bytes_from_top_level_element_2", "reads_delivering_bytes_from_top_level_element_3_or_later",
+            "reads_from_lz4_or_zstandard_chunks", "seeks_landing_strictly_inside_a_zeroes_chunk")
+    cov = {fid: dict.fromkeys(keys, 0) for fid in fgeo}
+    los = {fid: [c[0] for c in g["chunks"]] for fid, g in fgeo.items()}
+    for s in scripts:
+        k, ch, lo = cov[s["f"]], fgeo[s["f"]]["chunks"], los[s["f"]]
+        d = ch[-1][1]
+        for c in s["h"]:
+            if c[3] != 2:
+                continue
+            if c[0] in (1, 2) and 0 <= c[5] < d:
+                i = bisect.bisect_right(lo, c[5]) - 1
+                if ch[i][3] == 0 and c[5] > ch[i][0]:
+                    k["seeks_landing_strictly_inside_a_zeroes_chunk"] += 1
+            if c[0] != 0 or c[4] <= 0:
+                continue
+            k["reads_delivering_bytes"] += 1
+            hi = ch[bisect.bisect_right(lo, c[5]) - 1][1]
+            if c[8] == 0:
+                k["reads_from_a_zeroes_chunk"] += 1
+            if c[9] == 1 and c[5] + c[4] > hi:
+                k["reads_across_a_chunk_boundary_from_strictly_inside"] += 1
+                if c[8] == 0:
+                    k["reads_from_strictly_inside_a_zeroes_chunk_across_its_end"] += 1
+                    if c[7] == 0:
+                        k["reads_from_strictly_inside_a_zeroes_chunk_across_its_end_fresh_cursor"] += 1
+            if c[8] in (2, 3):
+                k["reads_from_lz4_or_zstandard_chunks"] += 1
+            if c[10] == 2:
+                k["reads_delivering_bytes_from_top_level_element_2"] += 1
+            if c[10] >= 3:
+                k["reads_delivering_bytes_from_top_level_element_3_or_later"] += 1
+    return cov
+
+
 # ----------------------------------------------------------------------------- RacReader export
 def export_scripts(ctx, cfgs, label):
     """cfgs: list of dict(file, fdesc, alpha, depth).  One TLC run with -dump; the
     behaviours are the hist values of the maximal states.  Returns [{"f", "h"}]."""
     mod = "MC_RR_" + label
-    recs = [{"dsize": c["fdesc"]["size"], "dchunk": c["fdesc"]["dchunk"], "zmode": c["fdesc"]["zmode"], "alpha": c["alpha"], "depth": c["depth"]} for c in cfgs]
+    recs = [{"runs": c["geo"]["runs"], "top": c["geo"]["top"], "alpha": c["alpha"], "depth": c["depth"]} for c in cfgs]
     data = {
         mod + ".tla": "---- MODULE %s ----\nEXTENDS RacReader\nmc_Cfgs == %s\n====\n" % (mod, tla(recs)),
         mod + ".cfg": "SPECIFICATION Spec\nCONSTANTS\n  Cfgs <- mc_Cfgs\nINVARIANTS CursorInv StateInv\nCHECK_DEADLOCK FALSE\n",
@@ -258,6 +562,9 @@ def run_harness(ctx, binp, job, scripts, name, timeout=3000, env=None):
         for s in scripts:
             f.write(json.dumps(s, separators=(",", ":")) + "\n")
     job = dict(job)
+    if scripts:         # build only the files these scripts run on
+        used = {x["f"] for x in scripts}
+        job["files"] = [f for f in job["files"] if f["id"] in used]
     job["scripts_path"] = sp
     jp = os.path.join(d, name + ".job.json")
     op = os.path.join(d, name + ".out.json")
@@ -406,22 +713,32 @@ def detect_active(ctx, racep, base_job, pool):
     return active
 
 
+def fdesc_str(d):
+    if d.get("kind"):
+        ch = desc_chunks(d)
+        names = {0: "Zeroes", 1: "Zlib", 2: "LZ4", 3: "Zstandard"}
+        shown = ", ".join("[%d..%d) %s%s" % (lo, hi, names[c], "" if e == hi - lo or c == 0 else " %d stored" % e) for lo, hi, e, c in ch[:12])
+        return "%s, %d chunks: %s%s; index %s" % ("built by the harness" if d["kind"] == "built" else "written by rac.ChunkWriter", len(ch), shown,
+                                                  ", ..." if len(ch) > 12 else "", json.dumps(d.get("tree", "as rac.ChunkWriter makes it")).replace('"e": ', "")[:400])
+    return "%d bytes, rac.Writer DChunkSize %d" % (d["size"], d["dchunk"])
+
+
 def report_failure(ctx, f, fdesc, bounds, active, origin):
     key = classify(f, bounds, active)
-    what = "%s on rac.Reader{Concurrency: %d}, file %s (%d bytes, DChunkSize %d): %s  -> %s%s" % (
-        f["kind"].upper(), f["conc"], f["file"], fdesc["size"], fdesc["dchunk"], fmt_script(f["script"]),
+    what = "%s on rac.Reader{Concurrency: %d}, file %s (%s): %s  -> %s%s" % (
+        f["kind"].upper(), f["conc"], f["file"], fdesc_str(fdesc), fmt_script(f["script"]),
         f["what"], (" [blocked at %s]" % f["site"]) if f.get("site") else "")
     rep = {"file": fdesc, "conc": f["conc"], "script": f["script"], "failing_call": f["call"], "kind": f["kind"],
            "what": f["what"], "site": f.get("site"), "other_goroutines": f.get("sites"), "replies": f.get("replies"),
            "oracle_replies": f.get("oracle"), "stack": (f.get("stack") or "")[:6000], "origin": origin,
-           "call_encoding": "[op(0 Read,1 Seek,2 SeekRange,3 Close), a, b, kind(0 free,1 error,2 ok), n, at, eof(0 nil,1 either,2 EOF), cursor]"}
+           "call_encoding": "[op(0 Read,1 Seek,2 SeekRange,3 Close), a, b, kind(0 free,1 error,2 ok), n, at, eof(0 nil,1 either,2 EOF), cursor, codec at pos, strictly inside a chunk, top-level element]"}
     if key:
         rep["key"] = key
     return ctx.violation(what, rep)
 
 
 # ----------------------------------------------------------------------------- trace validation
-def validate_traces(ctx, paths, finfo, fixed, corrupt_rng=None, pool=None):
+def validate_traces(ctx, paths, allbounds, fixed, corrupt_rng=None, pool=None):
     """Group recorded traces by (file, conc), one TLC run per group (in parallel).  Returns
     (accepted, rejected list, selftest).  With corrupt_rng: one payload scalar of one trace is
     corrupted in an extra copy, which TLC must reject (selftest = ("done", rejected?, ...))."""
@@ -458,7 +775,7 @@ def validate_traces(ctx, paths, finfo, fixed, corrupt_rng=None, pool=None):
                     calls += 1
             maxcalls = max(maxcalls, calls)
             trs.append({"client": t["client"], "manager": t["manager"], "workers": t["workers"]})
-        bounds = [0] + [c[1] for c in finfo[fid]["chunks"]]
+        bounds = allbounds[fid]
         mod = "MC_TR_%d" % gi
         data = {
             mod + ".tla": "---- MODULE %s ----\nEXTENDS Trace_RacConc\nmc_Bounds == %s\nmc_Ranges == %s\nmc_Traces == %s\n====\n" % (
@@ -526,8 +843,9 @@ def run(ctx, only_replay=None):
     ctx.harness_dir()
     fut_plain = pool.submit(ctx.go_build, "./cmd/racrreplay", "racrreplay", tags, False)
     fut_race = pool.submit(ctx.go_build, "./cmd/racrreplay", "racrreplay_race", tags, True)
+    fut_walk = pool.submit(ctx.go_build, "./cmd/racwreplay", "racwreplay", "verif", False)
 
-    fdescs = {f["id"]: f for f in file_descs(ctx)}
+    fdescs = {f["id"]: f for f in file_descs(ctx) + built_descs(ctx)}
 
     # ---------------------------------------------------------------- 1. RacConc: the model of the code as it is
     # geometry: (name, unit bytes, real file, bounds in units, BUF in units)
@@ -580,51 +898,77 @@ def run(ctx, only_replay=None):
     else:
         futs.append(pool.submit(fixed_model, "fixed_n2_g1", ("g1", 100, "m4", list(range(0, 6)), 2), 2, 3, [1], [3], []))
 
-    # ---------------------------------------------------------------- 2. file geometry from the real writer
+    # ---------------------------------------------------------------- 2. the files and their geometry
     binp = fut_plain.result()
-    info = run_harness(ctx, binp, {"seed": ctx.seed, "files": list(fdescs.values()), "conc": []}, [], "files")
+    info = run_harness(ctx, binp, {"seed": ctx.seed, "files": list(fdescs.values()), "conc": [], "dump_dir": ctx.subdir("files")}, [], "files")
     if info["crash"]:
         raise ToolingError("racrreplay could not build the RAC files:\n" + info["stderr"])
     finfo = info["files"]
-    bounds = {}
-    for fid, fi in finfo.items():
-        d = fdescs[fid]
-        want = [[i, min(i + d["dchunk"], d["size"])] for i in range(0, d["size"], d["dchunk"])]
-        if fi["chunks"] != want:
-            raise ToolingError("file %s: chunk ranges %s..., expected multiples of DChunkSize" % (fid, fi["chunks"][:4]))
-        bounds[fid] = [0] + [c[1] for c in fi["chunks"]]
-        for k, (c, e) in enumerate(zip(fi["chunks"], fi["explicit"])):
-            if e != explicit_rule(k, c[1] - c[0], d["zmode"]):
-                raise ToolingError("file %s chunk %d: %d explicit bytes, RacReader!Explicit says %d" % (fid, k, e, explicit_rule(k, c[1] - c[0], d["zmode"])))
-    nzero = sum(1 for fi in finfo.values() for (c, e) in zip(fi["chunks"], fi["explicit"]) if e < c[1] - c[0])
+    # built files: valid (independent walker + Trace_RacFormat.tla) and equal to their description
+    shape = validate_files(ctx, fut_walk.result(), list(fdescs.values()), finfo, pool)
+    bounds, fgeo = {}, {}
+    for fid, d in fdescs.items():
+        fi = finfo[fid]
+        chunks = desc_chunks(d)
+        top = root_top(open(fi["path"], "rb").read())
+        if fid in shape and shape[fid]["top"] != top:
+            raise ToolingError("file %s: Root Node DOffs %s (walker) / %s (bytes)" % (fid, shape[fid]["top"], top))
+        listed = [(c[0], c[1], e, k) for c, e, k in zip(fi["chunks"], fi["explicit"], fi["codecs"])]
+        if fi["cr_err"] or listed != chunks:
+            k = next((i for i, (a, b) in enumerate(zip(listed, chunks)) if a != b), min(len(listed), len(chunks)))
+            what = "rac.ChunkReader.NextChunk %s: chunk %d is %s, the file has %s (DRange, bytes stored, Codec; %d chunks listed, %d in the file)" % (
+                ("fails with %r after %d chunks" % (fi["cr_err"], len(listed))) if fi["cr_err"] else "lists other chunks than the file has",
+                k, listed[k] if k < len(listed) else None, chunks[k] if k < len(chunks) else None, len(listed), len(chunks))
+            if d.get("kind") == "built":
+                # the file is valid and is what the description says (walker + TLC): the list is wrong
+                ctx.violation("file %s (%s), valid by Trace_RacFormat.tla: %s" % (fid, fdesc_str(d), what),
+                              {"kind": "chunklist", "file": d, "listed": listed[:200], "expected": chunks[:200], "cr_err": fi["cr_err"]})
+            elif ctx.violations:
+                ctx.log("file %s (written by the repository's writer): %s" % (fid, what))
+            else:
+                raise ToolingError("file %s: %s" % (fid, what))
+        bounds[fid] = [0] + [c[1] for c in chunks]
+        fgeo[fid] = {"chunks": chunks, "runs": geo_runs(chunks), "top": top}
+    nzero = sum(1 for g in fgeo.values() for c in g["chunks"] if c[2] < c[1] - c[0])
+    nzc = sum(1 for g in fgeo.values() for c in g["chunks"] if c[3] == 0)
     ctx.log("files: " + ", ".join("%s=%d chunks/%dB" % (k, len(v["chunks"]), v["dsize"]) for k, v in sorted(finfo.items()))
-            + "; chunks with implicit zero tails: %d; hook H2 in tree: %s" % (nzero, hook))
+            + "; chunks with implicit zero tails: %d, Zeroes-codec chunks: %d; hook H2 in tree: %s" % (nzero, nzc, hook))
+    ctx.log("built files judged valid by Trace_RacFormat.tla and equal to their description: " + ", ".join(
+        "%s(depth %d, %d nodes, max arity %d, root at %s with %d elements%s%s)" % (
+            k, v["depth"], v["nodes"], v["max_arity"], v["root_at"], len(v["top"]) - 1,
+            ", CBias" if v["cbias_nonzero"] else "", ", page %d" % fdescs[k]["page"] if fdescs[k].get("page") else "") for k, v in sorted(shape.items())))
 
     # ---------------------------------------------------------------- 3. RacReader: export the behaviours
     for f in futs:
         f.result()
     depth = 5 if thorough else 4
     draws = 3 if thorough else 1
-    asizes = {"c1": 8, "c2": 8, "c3": 9, "c4": 8, "c5": 9, "ml": 7, "m4": 7, "mk": 7, "b3": 6, "b2": 6}
+    asizes = {"c1": 8, "c2": 8, "c3": 9, "c4": 8, "c5": 9, "ml": 7, "m4": 7, "mk": 7, "b3": 6, "b2": 6,
+              "z1": 8, "z2": 8, "d3": 7, "d3s": 7, "d4": 7, "d4s": 6, "cb": 7, "zb": 6, "lz": 6, "big": 6, "d5": 6, "bigs": 5}
     if thorough:
-        asizes.update({"c3": 8, "c5": 8})
+        asizes.update({"c3": 8, "c5": 8, "z1": 7, "z2": 7, "d3": 6, "d3s": 6, "d4": 6, "cb": 6})
     cfgs = []
     for fid in sorted(fdescs):
-        fa = full_alphabet(bounds[fid])
+        if fdescs[fid].get("kind"):
+            fa = geo_alphabet(fgeo[fid]["chunks"], fgeo[fid]["top"])
+            draw = draw_geo_alphabet
+        else:
+            fa = full_alphabet(bounds[fid])
+            draw = draw_alphabet
         for _ in range(draws):
-            cfgs.append({"file": fid, "fdesc": fdescs[fid], "alpha": draw_alphabet(rng, fa, asizes[fid]), "depth": depth, "origin": "alphabet"})
+            cfgs.append({"file": fid, "geo": fgeo[fid], "alpha": draw(rng, fa, asizes[fid]), "depth": depth, "origin": "alphabet"})
     # the client scripts of the RacConc configurations, in bytes, on the matching real files
     for geo, rl, sp, rg in ((G1, [1, 2, 6], [0, 1, 3], R1[:2]), (G2, [1, 2, 9], [0, 4], [(1, 2)]), (G3, [1, 5], [0, 4], [(1, 6)])):
         u = geo[1]
         alpha = [[0, n * u, 0] for n in rl] + [[1, p * u, 0] for p in sp] + [[2, a * u, b * u] for a, b in rg] + [[3, 0, 0]]
-        cfgs.append({"file": geo[2], "fdesc": fdescs[geo[2]], "alpha": alpha,
+        cfgs.append({"file": geo[2], "geo": fgeo[geo[2]], "alpha": alpha,
                      "depth": 4 if len(alpha) <= 8 else 3, "origin": "RacConc client scripts " + geo[0]})
     for fid, calls, origin in cex_scripts:
         alpha = []
         for c in calls:
             if c not in alpha:
                 alpha.append(c)
-        cfgs.append({"file": fid, "fdesc": fdescs[fid], "alpha": alpha, "depth": len(calls),
+        cfgs.append({"file": fid, "geo": fgeo[fid], "alpha": alpha, "depth": len(calls),
                      "origin": origin, "exact": calls})
     # split into a few TLC runs
     nruns = 6 if thorough else 3
@@ -655,6 +999,20 @@ def run(ctx, only_replay=None):
         cex_ids.append((s["id"], origin))
     ctx.log("RacReader: %d behaviours of length <= %d exported over %d configurations (%.0fs since start)" % (
         len(scripts), depth, len(cfgs), time.time() - t0))
+
+    # the model's labels: did the exported behaviours reach the places the new file classes are there for?
+    fcov = file_coverage(scripts, fgeo)
+    tot = {k: sum(v[k] for v in fcov.values()) for k in next(iter(fcov.values()))}
+    ctx.log("file coverage of the exported calls (RacReader labels): %s" % tot)
+    if not tot["reads_from_strictly_inside_a_zeroes_chunk_across_its_end_fresh_cursor"]:
+        raise ToolingError("no exported behaviour seeks into the middle of a Zeroes chunk and reads across its end")
+    for fid, d in fdescs.items():
+        ntop = len(fgeo[fid]["top"]) - 1
+        deep = shape[fid]["depth"] >= 3 if fid in shape else len(fgeo[fid]["chunks"]) > 65025
+        if deep and ntop >= 2 and not fcov[fid]["reads_delivering_bytes_from_top_level_element_2"]:
+            raise ToolingError("file %s: no exported Read starts in the 2nd top-level sub-tree of a >= 3 level index" % fid)
+        if deep and ntop >= 3 and not fcov[fid]["reads_delivering_bytes_from_top_level_element_3_or_later"]:
+            raise ToolingError("file %s: no exported Read starts in the 3rd.. top-level sub-tree of a >= 3 level index" % fid)
 
     # ---------------------------------------------------------------- 4. sequential replay: every behaviour
     seq = run_harness(ctx, binp, {"seed": ctx.seed, "files": list(fdescs.values()), "conc": [0], "par": min(vlib.NCPU, 12)}, scripts, "seq", timeout=3000)
@@ -705,16 +1063,20 @@ def run(ctx, only_replay=None):
     skipped_known = 0
     pool_ids = list(range(len(scripts)))
     bigfiles = {"m4", "ml", "b3", "b2", "mk"}
+
+    def fgroup(fid):
+        return "built" if fdescs[fid].get("kind") else "big" if fid in bigfiles else "small"
     for c in concs:
         rng.shuffle(pool_ids)
-        # quotas: half on files with many / large chunks, half on the 1-5 chunk files; in each half,
-        # half of the slots are reserved for scripts that run to their end on this tree
-        quota = {(b, full): per_conc // 4 for b in (True, False) for full in (True, False)}
+        # quotas: a third on the built files (file dimension), a third on rac.Writer files with many / large
+        # chunks, a third on the 1-5 chunk files; in each, half of the slots are reserved for scripts that run
+        # to their end on this tree
+        quota = {(b, full): per_conc // 6 for b in ("built", "big", "small") for full in (True, False)}
         for i in pool_ids:
             if not any(quota.values()):
                 break
             s = scripts[i]
-            b = s["f"] in bigfiles
+            b = fgroup(s["f"])
             if not quota[(b, True)] and not quota[(b, False)]:
                 continue
             if avoid(s, c):
@@ -788,11 +1150,32 @@ def run(ctx, only_replay=None):
     trace_note = "hook H2 (findings/hooks/H2-conc-reader.patch) is not in this tree: channel-level trace validation skipped"
     selftest = None
     if hook:
-        ntr = 400 if thorough else 60
-        cand = [s for c in (2, 4) for s in chosen[c] if completes(s) and all(x[3] == 2 for x in s["h"])]
+        ntr = 400 if thorough else 36
+        import bisect
+
+        def works(s):       # buffer-sized pieces of chunks the script's Reads consume
+            b, k = bounds[s["f"]], 0
+            for x in s["h"]:
+                if x[0] == 0 and x[4] > 0:
+                    i, j = bisect.bisect_right(b, x[5]) - 1, bisect.bisect_left(b, x[5] + x[4])
+                    k += sum((min(b[m + 1], x[5] + x[4]) - max(b[m], x[5]) + RBUF - 1) // RBUF for m in range(i, j))
+            return k
+        # (the search for an interleaving grows steeply with the number of works and workers)
+        cand = [s for c in (2, 4) for s in chosen[c] if completes(s) and all(x[3] == 2 for x in s["h"])
+                and (thorough or works(s) <= 40)]
         rng.shuffle(cand)
         tdir = ctx.subdir("traces")
-        tr_scripts = cand[:ntr]
+        if thorough:
+            tr_scripts = cand[:ntr]
+        else:
+            # one TLC run per (file, Concurrency): three rac.Writer files and three built files per seed
+            have = sorted({s["f"] for s in cand})
+            legacy = [f for f in have if not fdescs[f].get("kind")]
+            built = [f for f in have if fdescs[f].get("kind")]
+            tr_files = rng.sample(legacy, min(3, len(legacy))) + rng.sample(built, min(3, len(built)))
+            tr_scripts = []
+            for f in tr_files:
+                tr_scripts += [s for s in cand if s["f"] == f][:ntr // 6]
         halves = [tr_scripts[0::2], tr_scripts[1::2]]
 
         def run_tr(arg):
@@ -806,7 +1189,7 @@ def run(ctx, only_replay=None):
             paths += r["traces"]
             for f in r["failures"]:
                 report_failure(ctx, f, fdescs[f["file"]], bounds[f["file"]], active, "trace-mode replay")
-        traces_ok, rejected, selftest = validate_traces(ctx, paths, finfo, fixed_flags, corrupt_rng=rng, pool=pool)
+        traces_ok, rejected, selftest = validate_traces(ctx, paths, bounds, fixed_flags, corrupt_rng=rng, pool=pool)
         for rj in rejected[:5]:
             ctx.violation("the channel operations recorded from conc_reader.go (Concurrency %d, file %s, script %s) are not an interleaving that "
                           "RacConc (FIXED=%s) allows: %d of %d events matched%s" % (
@@ -816,8 +1199,8 @@ def run(ctx, only_replay=None):
                            "matched_events": rj["matched_events"], "events": rj["events"], "fixed_flags": fixed_flags})
         if not selftest or selftest[0] != "done" or not selftest[1]:
             raise ToolingError("self-test of the trace validation failed: a corrupted trace was not rejected (%s)" % (selftest,))
-        trace_note = "%d per-goroutine event logs accepted by Trace_RacConc (FIXED=%s), %d rejected; self-test: %s rejected after %d of %d events" % (
-            traces_ok, fixed_flags, len(rejected), selftest[2], selftest[3], selftest[4])
+        trace_note = "%d per-goroutine event logs (files %s) accepted by Trace_RacConc (FIXED=%s), %d rejected; self-test: %s rejected after %d of %d events" % (
+            traces_ok, sorted({s["f"] for s in tr_scripts}), fixed_flags, len(rejected), selftest[2], selftest[3], selftest[4])
     ctx.log(trace_note)
 
     # ---------------------------------------------------------------- evidence
@@ -834,15 +1217,25 @@ def run(ctx, only_replay=None):
         "samples": samples,
         "evaluations": seq["scripts_run"] + conc_runs,
         "distinct_nontrivial": nontrivial,
-        "rule": "every call sequence of length %d over a per-file alphabet of %s calls (one call of each essential kind plus draws, per seed, from the full rule: offsets at chunk "
+        "rule": "on each file (rac.Writer files, a rac.ChunkWriter file, built files of the classes listed under files): every call sequence of length %d over a per-file alphabet of %s calls (one call of each essential kind plus draws, per seed, from the full rule: offsets at chunk "
                 "boundaries +-1/0/dsize+-1/negatives, lengths 0/1/chunk-1/chunk/chunk+1/all, all whences, SeekRange pairs) plus the RacConc "
                 "client scripts and counterexamples, exported by TLC from RacReader.tla with expected replies; non-trivial = distinct scripts "
                 "that deliver bytes in some Read and contain a successful Seek/SeekRange" % (depth, "6-9"),
         "exhaustive": True,
         "sequential_scripts": seq["scripts_run"], "sequential_calls": seq["calls_run"], "sequential_calls_compared": seq["calls_checked"],
         "bytes_compared": seq["bytes_checked"], "calls_per_op_and_cursor_state": seq["cursor_states"],
-        "files": {k: {"chunks": len(v["chunks"]), "dsize": v["dsize"], "csize": v["csize"],
-                      "chunks_with_implicit_zero_tail": sum(1 for c, e in zip(v["chunks"], v["explicit"]) if e < c[1] - c[0])} for k, v in finfo.items()},
+        "files": {k: dict({"written_by": {"": "rac.Writer + raczlib", "built": "harness file builder (racrreplay/build.go)", "chunkwriter": "rac.ChunkWriter"}[fdescs[k].get("kind", "")],
+                           "chunks": len(fgeo[k]["chunks"]), "dsize": v["dsize"], "csize": v["csize"],
+                           "chunks_with_implicit_zero_tail": sum(1 for c in fgeo[k]["chunks"] if c[3] != 0 and c[2] < c[1] - c[0]),
+                           "zeroes_codec_chunks": sum(1 for c in fgeo[k]["chunks"] if c[3] == 0),
+                           "codecs": sorted({c[3] for c in fgeo[k]["chunks"]}),
+                           "root_node_elements_with_data": len(fgeo[k]["top"]) - 1,
+                           "scripts": sum(1 for s in scripts if s["f"] == k),
+                           "coverage_from_model_labels": fcov[k]},
+                          **({"validated": "independent walker + Trace_RacFormat.tla; Leaf Nodes equal the description; rac.ChunkReader list equal",
+                              "index": shape[k], "tree": json.dumps(fdescs[k]["tree"]).replace('"e": ', "")} if k in shape else {}))
+                  for k, v in finfo.items()},
+        "file_coverage_totals": tot,
         "concurrent_script_runs_under_race": conc_runs, "concurrent_runs_by_concurrency": by_conc, "concurrent_calls": conc_calls,
         "goroutine_leak_checks": leakchecks, "scripts_avoided_exact_known_construct": skipped_known,
         "slow_calls_not_confirmed_as_hangs": unconfirmed,
@@ -850,7 +1243,9 @@ def run(ctx, only_replay=None):
         "known_findings_active_on_this_tree": active,
         "hook_H2_present": hook, "trace_validation": trace_note, "traces_accepted": traces_ok,
     }, assumptions=[
-        "valid RAC files written by rac.Writer + raczlib (DChunkSize mode); hostile files are C15",
+        "valid RAC files only (hostile files are C15): written by rac.Writer + raczlib (DChunkSize mode), by rac.ChunkWriter (> 65025 chunks), and laid out by the harness's builder from abstract descriptions (each one judged valid by the independent walker + Trace_RacFormat.tla first); the structural space is sampled by a fixed list of file classes, not enumerated",
+        "the walker has no LZ4 / Zstandard decoder: for those chunks file structure, DRanges and Codec are validated, the stored byte count is taken from the description",
+        "files written by the repository's own writers are not re-validated here (C13 does that)",
         "the concurrent reader is exercised under sampled real schedules (seeded perturbation in the shared io.ReaderAt, between calls, and in hook H2 when present); all interleavings are explored only in RacConc",
         "RacConc abstracts I/O and codec errors away (valid files, in-memory source) and is exhaustive for N=1 (N=2 at smaller bounds); Concurrency 4 is replayed, not model-checked",
         "a hang is a call that does not return within the watchdog budget and again within 4x the budget on a second run",
@@ -863,6 +1258,21 @@ def replay(ctx, path):
     rep = json.load(open(path))
     rep = rep.get("replay", rep)
     fdesc, h, conc = rep.get("file"), rep.get("script"), rep.get("conc")
+    if rep.get("kind") == "chunklist" and fdesc:
+        binp = ctx.go_build("./cmd/racrreplay", "racrreplay", "verif", False)
+        r = run_harness(ctx, binp, {"seed": ctx.seed, "files": [fdesc], "conc": []}, [], "files")
+        if r["crash"]:
+            raise ToolingError("racrreplay could not build the file:\n" + r["stderr"])
+        fi = r["files"][fdesc["id"]]
+        listed = [(c[0], c[1], e, k) for c, e, k in zip(fi["chunks"], fi["explicit"], fi["codecs"])]
+        want = desc_chunks(fdesc)
+        print("file %s: rac.ChunkReader lists %s%s" % (fdesc_str(fdesc), listed[:40], (" then fails with %r" % fi["cr_err"]) if fi["cr_err"] else ""))
+        if fi["cr_err"] or listed != want:
+            ctx.violation("rac.ChunkReader.NextChunk does not list the chunks of the valid file %s (%s): %s%s, the file has %s" % (
+                fdesc["id"], fdesc_str(fdesc), listed[:40], (" then error %r" % fi["cr_err"]) if fi["cr_err"] else "", want[:40]), rep)
+        else:
+            print("the chunk list equals the description: not reproduced on this tree")
+        return
     if not fdesc or h is None:
         print(json.dumps(rep, indent=1)[:4000])
         raise ToolingError("this replay file does not name a file and a script; re-run `bin/check C14 <tier>`")
@@ -883,7 +1293,7 @@ def replay(ctx, path):
         if r["crash"]:
             ctx.violation("process died / data race while replaying:\n" + r["stderr"][:3000], dict(rep, stderr=r["stderr"]))
             return
-        bounds = [0] + [c[1] for c in r["files"][fdesc["id"]]["chunks"]]
+        bounds = [0] + [c[1] for c in desc_chunks(fdesc)]
         for f in r["failures"]:
             report_failure(ctx, f, fdesc, bounds, active, "replay of " + path)
         if r["failures"]:
